@@ -19,6 +19,12 @@ def run(ctx: Ctx):
     gs, table = common.alias_table(ctx)
     ctx.assume("numerical agreement of the three generated steps is NOT decided; the three builders are compared as term tables")
     name = table.get("hybrid_rush_larsen")
+    errs = ctx.__dict__.get("_scheme_model_errors", {})
+    if name in errs:
+        ctx.rule("R07.a", "hybrid path table", floor=1)
+        common.check_single_pass(ctx, "R07.a", name)
+        ctx.undecided("R07.a", gs.key("path-table"), f"the path table of {name} is not built: {errs[name][:120]}")
+        return
     if name not in models:
         ctx.rule("R07.a", "hybrid path table", floor=1)
         ctx.fail("R07.a", gs.key("alias::hybrid_rush_larsen"), f"get_scheme maps 'hybrid_rush_larsen' to {name!r}, which is not a scheme builder", gs.where())
@@ -35,6 +41,7 @@ def run(ctx: Ctx):
     check_first_def(ctx, "R07.a", m)
     check_counter(ctx, "R07.a", m)
     check_single_exit(ctx, "R07.a", m)
+    common.check_single_pass(ctx, "R07.a", name)
     # the stiff set
     stiff_sets = set()
     for r in m.rows:
